@@ -16,10 +16,17 @@ P = {
        "count, bit queries incl. onesCount_spec, division by zero panics and nothing else does, divMod_spec unconditionally "
        "(both Knuth kernels proved: divmod128by64 through the correction-loop invariant, divmod128by128 through the estimate "
        "lemma q <= qhat <= q+1; the binary kernel; the dispatch), q*n+r = u, signed layer (neg/abs/Min fixed points, tdiv/tmod "
-       "incl. Div64). ~200k lines per quick run; a second pass histograms dispatch path x correction counts and fails if a "
-       "path stops being reached.",
+       "incl. Div64). SECOND TIE (translator): on every run go/packages+SSA (gossa/ssagen) regenerates Lean definitions of the 80 "
+       "loop-free functions of xmath/num from the working tree (lean/Generated/SSA_Num.lean) and Props/C01Gen.lean proves each "
+       "regenerated definition equal to the verified hand-written model (94 theorems incl. transported specs), so the spec "
+       "theorems are re-checked against what the code says now; a changed function breaks its equality proof by name. ~200k "
+       "lines per quick run; a second pass histograms dispatch path x correction counts and fails if a path stops being reached.",
   note="math/bits contracts (Add64, Sub64, Mul64, Len64, LeadingZeros64, TrailingZeros64, OnesCount64) are trusted as documented; "
-       "the float/big.Int/string conversions belong to C02.",
+       "the SSA translator (gossa, ~1000 lines of Go over golang.org/x/tools/go/ssa) is trusted to render loop-free integer "
+       "SSA faithfully (it fails safe: an untranslatable or changed function breaks a proof); the division entry points and "
+       "kernels (panics, loops) are outside the translated fragment and tied by the differential run only; a harmless rewrite "
+       "that re-routes a math/bits call can break an equality proof and is then reported without a failing input; the "
+       "float/big.Int/string conversions belong to C02.",
   ref="DESIGN.md section 5 C01"),
  "C11": dict(
   text="22 Lean theorems about the heap model of errs.Error (nodes with message/cause/next, Append transcribed with its cursor, "
